@@ -3,6 +3,7 @@ From Coq Require Import ZArith QArith Qcanon List Bool Permutation.
 Require Import QV.C02.Spec QV.C02.Model QV.C02.Proofs QV.C02.Proofs2 QV.C02.Proofs3.
 Require Import QV.C02.Stack QV.C02.ProofsStack QV.C02.Merge QV.C02.ProofsMerge QV.C02.Rewrite QV.C02.ProofsRw QV.C02.ProofsAccept.
 Require Import QV.C02.Flatten QV.C02.ProofsFlat QV.C02.Vol QV.C02.ProofsVol QV.C02.Params QV.C02.ProofsParams.
+Require Import QV.C02.ProofsAtomic.
 Import ListNotations.
 Open Scope Qc_scope.
 
@@ -320,6 +321,25 @@ Proof.
   repeat split; auto. now rewrite E.
 Qed.
 Print Assumptions C02_declared_parameters_suffice.
+
+(* ---- round 4: wrappers around atomic parts inside atomic composites ------------------------------------------------------ *)
+(* TimeReversalPT / ParallelChannelPT / ArithmeticPT(scalar) / MappingPT around an atomic template are atomic themselves
+   and may be parts of an AtomicMultiChannelPT / ArithmeticAtomicPT; there their windows are collected through
+   get_measurement_windows (Spec.adecls: a reversed part mirrored about its own duration) instead of being built
+   through _internal_create_program (Spec.denote).  Both paths give the same windows for every atomic template that
+   plays, so C02_windows / C02_inside speak about such composites as well. *)
+Theorem C02_atomic_part_same_as_program : forall p en mm,
+  is_atomic p = true -> plays p en = true -> denote p en mm = adecls p en mm.
+Proof. exact atomic_position_agrees. Qed.
+Print Assumptions C02_atomic_part_same_as_program.
+Theorem C02_atomic_part_nonvacuous :
+  is_atomic awrap_example = true /\
+  match create_program awrap_example (fun _ => Q2Qc 0) Some with
+  | Program prog => loop_windows prog = [(1%N, Q2Qc 3, Q2Qc 1); (2%N, Q2Qc 0, Q2Qc 1)]
+  | _ => False
+  end.
+Proof. exact awrap_example_ok. Qed.
+Print Assumptions C02_atomic_part_nonvacuous.
 
 (* non-vacuity: a reversed repetition inside a sequence with renaming satisfies the hypotheses of C02_windows and
    C02_inside (a program is produced, all declarations inside their nodes) and reports 4 windows *)
